@@ -303,10 +303,15 @@ func (x *Exec) run(fn *ssa.Function, args []*Val, bindings []*Val, st *State, to
 	}
 	if ctr != nil {
 		for _, inv := range ctr.Invs {
+			found := false
 			for _, li := range f.headers {
 				if li.ord == inv.Loop {
 					li.invs = append(li.invs, inv)
+					found = true
 				}
+			}
+			if !found && top {
+				panic(unsupported("the contract has an invariant for loop %d, but %s has %d loop(s)", inv.Loop, fn, len(f.headers)))
 			}
 		}
 	}
@@ -717,6 +722,17 @@ func (x *Exec) evalInvariant(f *frame, li *loopInfo, inv *Clause, st *State, ov 
 			args[i] = x.resolveNamed(f, li, a.Name, token.Pos(a.Idx), st, ov)
 		case "logical":
 			args[i] = x.logical(a.Name, a.Type, inv.Fn, i)
+		case "rangeover":
+			// header: t = rangeindex+1; t < len(X)  -> X
+			for _, ins := range li.header.Instrs {
+				if bo, ok := ins.(*ssa.BinOp); ok && bo.Op == token.LSS {
+					if c, ok := bo.Y.(*ssa.Call); ok {
+						if b, ok := c.Call.Value.(*ssa.Builtin); ok && b.Name() == "len" && len(c.Call.Args) == 1 {
+							args[i] = x.val(f, c.Call.Args[0])
+						}
+					}
+				}
+			}
 		case "rangeidx":
 			for _, ins := range li.header.Instrs {
 				if phi, ok := ins.(*ssa.Phi); ok && phi.Comment == "rangeindex" {
